@@ -540,6 +540,8 @@ def main(ck):
                 dump = json.loads(l)
         if rci != 0 or dump is None:
             ck.broken.append("harness c13items failed rc=%d: %s" % (rci, outi[-400:]))
+        elif dump.get("tsid_len") != 8:
+            ck.broken.append("C13 purge items: a marshaled tsid has %r bytes in the repository, the purge model (Purge.v isz) counts 8" % dump.get("tsid_len"))
         else:
             def pl(xs):
                 return "[" + "; ".join(xs) + "]"
